@@ -293,8 +293,22 @@ var simpleIntrinsics = map[string]*intrinsicDef{
 	"log.Println":  pureExtern("log.Println has no effect on tracked state", false),
 	"time.Now":     pureExtern("time.Now returns an arbitrary time", false),
 	"time.Sleep":   pureExtern("time.Sleep has no effect on tracked state", false),
-	"(*sync.Mutex).Lock":     nil,
-	"(*sync.Mutex).Unlock":   nil,
+	"(*sync.Mutex).Lock":      lockIntrinsic("Lock"),
+	"(*sync.Mutex).Unlock":    lockIntrinsic("Unlock"),
+	"(*sync.RWMutex).Lock":    lockIntrinsic("Lock"),
+	"(*sync.RWMutex).Unlock":  lockIntrinsic("Unlock"),
+	"(*sync.RWMutex).RLock":   lockIntrinsic("RLock"),
+	"(*sync.RWMutex).RUnlock": lockIntrinsic("RUnlock"),
+}
+
+// lockIntrinsic: mutex operations. Sequentially they have no effect on tracked state; the monitor rule
+// (DESIGN 2.4 R2) hooks in here when the mutex is declared as a monitor.
+func lockIntrinsic(op string) *intrinsicDef {
+	return &intrinsicDef{name: "sync mutex " + op + ": no effect on tracked state (mutual exclusion itself is trusted)", heaps: noHeaps,
+		apply: func(g *VCGen, c *ssa.CallCommon, pos token.Pos, v *ssa.Call) []SpecVal {
+			g.eng.concurrency.lockOp(g, op, c, pos)
+			return nil
+		}}
 }
 
 func init() {
